@@ -81,6 +81,8 @@ class World:
             return ('ok', self.task(k, name).value)
         except RunFailed as e:
             return ('exc', e)
+        except Exception as e:      # anything else the library raises is an outcome the checks compare, not a crash
+            return ('error', f'{type(e).__name__}: {e}'[:200])
 
     def drop_chains(self):
         """Interpreter restart: every Python object except the data directory goes away."""
